@@ -548,3 +548,14 @@ func (zeroChooser) Choose(*Choice) int { return 0 }
 func RunDefault(opt Options, main func(e *Exec)) *Outcome {
 	return Run(zeroChooser{}, opt, func() { main(Cur()) })
 }
+
+// Mem is a scheduling point AFTER a plain memory write the instrumenter was asked to expose
+// (vgen option mem_points: builtin append and copy calls of the listed files are wrapped as
+// Mem(append(...)) / Mem(copy(...))). It makes windows between an unsynchronised write into shared
+// memory and its later use visible to the explorer; outside an execution it is the identity.
+func Mem[T any](v T) T {
+	if e := Cur(); e != nil && e.cur != nil {
+		e.Point("mem", nil, "mem")
+	}
+	return v
+}
